@@ -71,6 +71,7 @@ func (b Bundle) Fragment(mtu int) (bs []Bundle, err error) {
 
 		fragBundle := MustNewBundle(fragPrimaryBlock, nil)
 
+		// The blocks keep their block numbers and their order, allowing an identical reassembly.
 		for _, cb := range b.CanonicalBlocks {
 			if cb.TypeCode() == ExtBlockTypePayloadBlock {
 				continue
@@ -79,13 +80,14 @@ func (b Bundle) Fragment(mtu int) (bs []Bundle, err error) {
 				continue
 			}
 
-			fragBundle.AddExtensionBlock(cb)
+			fragBundle.CanonicalBlocks = append(fragBundle.CanonicalBlocks, cb)
 		}
 
 		fragPayloadBlockLen := mtu - overhead
 
 		offset := int(math.Min(float64(i+fragPayloadBlockLen), float64(len(payloadBlock.Value.(*PayloadBlock).Data()))))
-		fragBundle.AddExtensionBlock(CanonicalBlock{
+		fragBundle.CanonicalBlocks = append(fragBundle.CanonicalBlocks, CanonicalBlock{
+			BlockNumber:       payloadBlock.BlockNumber,
 			BlockControlFlags: payloadBlock.BlockControlFlags,
 			CRCType:           payloadBlock.CRCType,
 			Value:             NewPayloadBlock(payloadBlock.Value.(*PayloadBlock).Data()[i:offset]),
@@ -247,12 +249,13 @@ func ReassembleFragments(bs []Bundle) (b Bundle, err error) {
 	b.PrimaryBlock.TotalDataLength = 0
 	b.PrimaryBlock.CRC = nil
 
+	// The blocks keep their block numbers and their order, resulting in the original Bundle.
 	for _, cb := range bs[0].CanonicalBlocks {
 		if cb.TypeCode() == ExtBlockTypePayloadBlock {
 			continue
 		}
 
-		b.AddExtensionBlock(cb)
+		b.CanonicalBlocks = append(b.CanonicalBlocks, cb)
 	}
 
 	if payload, payloadErr := mergeFragmentPayload(bs); payloadErr != nil {
@@ -265,10 +268,10 @@ func ReassembleFragments(bs []Bundle) (b Bundle, err error) {
 			return
 		}
 
-		cb := NewCanonicalBlock(1, pb0.BlockControlFlags, NewPayloadBlock(payload))
+		cb := NewCanonicalBlock(pb0.BlockNumber, pb0.BlockControlFlags, NewPayloadBlock(payload))
 		cb.SetCRCType(pb0.CRCType)
 
-		b.AddExtensionBlock(cb)
+		b.CanonicalBlocks = append(b.CanonicalBlocks, cb)
 	}
 
 	err = b.CheckValid()
